@@ -1,2 +1,213 @@
-import FpgoVerif.Model.C16
-/-! Property theorems for C16 (none yet). -/
+import FpgoVerif.Proofs.C16Sort
+import FpgoVerif.Gen.Skeletons
+/-! Property theorems for C16 — PMap is Map run in parallel: same results, each element once, bounded
+    concurrency, terminates.  All statements quantify over every input list, every function, every worker count,
+    every result-channel capacity and EVERY interleaving (`Reach` = any finite sequence of atomic steps of the
+    feeder, the workers, the closer and the collector of `Model/C16.lean`). -/
+namespace FpgoVerif.C16
+
+variable {α β : Type}
+
+/-! ### The worker-count rule of `PMap` -/
+
+/-- `PMap` starts `min(FixedPool, len(list))` workers when a positive pool size is given and `len(list)` otherwise
+    (no option, pool size 0 or negative) — the code's rule equals the statement's. -/
+theorem C16_workers (pool : Option Int) (n : Nat) : workerCount pool n = specWorkers pool n := by
+  unfold workerCount specWorkers
+  cases pool with
+  | none => rfl
+  | some p =>
+    simp only
+    by_cases h0 : 0 < p
+    · by_cases h1 : p < (n : Int)
+      · simp only [h0, h1, and_self, if_true]; omega
+      · simp only [h0, h1, and_false, if_false, if_true]; omega
+    · simp [h0]
+
+/-- never more workers than elements, and at least one worker for a non-empty list (so nothing is stranded) -/
+theorem C16_workers_bounds (pool : Option Int) (n : Nat) :
+    workerCount pool n ≤ n ∧ (0 < n → 0 < workerCount pool n) := by
+  rw [C16_workers]; unfold specWorkers
+  cases pool with
+  | none => exact ⟨Nat.le_refl _, id⟩
+  | some p => simp only; split <;> omega
+
+example : workerCount (some 3) 10 = 3 ∧ workerCount (some 0) 10 = 10 ∧ workerCount (some (-1)) 4 = 4 ∧
+    workerCount (some 12) 10 = 10 ∧ workerCount none 7 = 7 ∧ workerCount (some 2) 0 = 0 := by decide
+
+/-! ### Safety, for every schedule -/
+
+/-- the invariant holds in every reachable state (any `w`, any capacity) -/
+theorem C16_invariant (l : List α) (f : α → β) (w cap : Nat) (s : St α β) (hr : Reach l f cap (init w) s) :
+    Inv l f w cap s :=
+  inv_reach (inv_init l f w cap) hr
+
+/-- Ordered mode: whenever PMap returns — under any interleaving — the assembled output is exactly `Map(f, list)`. -/
+theorem C16_result_ordered (l : List α) (f : α → β) (w cap : Nat) (hw : l ≠ [] → 0 < w) (zero : β) (s : St α β)
+    (hr : Reach l f cap (init w) s) (hd : s.collectorDone = true) :
+    orderedResult zero l.length s.collected = l.map f :=
+  have h := C16_invariant l f w cap s hr
+  ordered_eq_map h (terminal_of_done h hw hd) zero
+
+/-- RandomOrder mode: whenever PMap returns, the output has no padding and no index overflow, and is a permutation of
+    `Map(f, list)`. -/
+theorem C16_result_random (l : List α) (f : α → β) (w cap : Nat) (hw : l ≠ [] → 0 < w) (zero : β) (s : St α β)
+    (hr : Reach l f cap (init w) s) (hd : s.collectorDone = true) :
+    noOrderResult zero l.length s.collected = some (s.collected.map (·.2)) ∧ (s.collected.map (·.2)).Perm (l.map f) :=
+  have h := C16_invariant l f w cap s hr
+  noOrder_perm h (terminal_of_done h hw hd) zero
+
+/-- Exactly once: when PMap returns, `f` has been applied to every position of the list exactly once … -/
+theorem C16_once (l : List α) (f : α → β) (w cap : Nat) (hw : l ≠ [] → 0 < w) (s : St α β)
+    (hr : Reach l f cap (init w) s) (hd : s.collectorDone = true) :
+    s.apps.Perm (List.range l.length) :=
+  have h := C16_invariant l f w cap s hr
+  apps_perm (terminal_of_done h hw hd)
+
+/-- … at no moment more than once to a position, never to a position outside the list … -/
+theorem C16_once_anytime (l : List α) (f : α → β) (w cap : Nat) (s : St α β) (hr : Reach l f cap (init w) s) (j : Nat) :
+    s.apps.count j ≤ 1 ∧ (l.length ≤ j → s.apps.count j = 0) := by
+  have h := C16_invariant l f w cap s hr
+  have ha := h.apps j
+  have hle : produced s j ≤ occ s j := by unfold produced occ; omega
+  constructor
+  · by_cases hj : j < s.fed
+    · have := h.cons_lt j hj; omega
+    · have := h.cons_ge j (by omega); omega
+  · intro hj
+    have := h.cons_ge j (by have := h.fed_le; omega); omega
+
+/-- … and only ever to the element at that position (`f` is applied to nothing else). -/
+theorem C16_applied_to_elements (l : List α) (f : α → β) (w cap : Nat) (s : St α β) (hr : Reach l f cap (init w) s)
+    (i : Nat) (v : α) (hc : WS.computing i v ∈ s.workers) : l[i]? = some v :=
+  (C16_invariant l f w cap s hr).wfComp i v hc
+
+/-- At most `w` applications of `f` are in progress at any moment. -/
+theorem C16_conc (l : List α) (f : α → β) (w cap : Nat) (s : St α β) (hr : Reach l f cap (init w) s) :
+    s.workers.countP WS.isComputing ≤ w := by
+  have h := C16_invariant l f w cap s hr
+  rw [← h.wlen]; exact List.countP_le_length
+
+/-- No send on a closed channel ever happens (the result channel is closed only after every worker has left). -/
+theorem C16_no_panic (l : List α) (f : α → β) (w cap : Nat) (s : St α β) (hr : Reach l f cap (init w) s) :
+    s.panicked = false ∧ (s.resultClosed = true → ∀ x ∈ s.workers, x.isDone = true) :=
+  have h := C16_invariant l f w cap s hr
+  ⟨h.noPanic, h.resClosed⟩
+
+/-- The call returns only after all applications finished: at return every worker has left its loop, both channels
+    are drained, all `n` results have been collected. -/
+theorem C16_returns_after_all (l : List α) (f : α → β) (w cap : Nat) (hw : l ≠ [] → 0 < w) (s : St α β)
+    (hr : Reach l f cap (init w) s) (hd : s.collectorDone = true) :
+    (∀ x ∈ s.workers, x.isDone = true) ∧ s.chJobs = [] ∧ s.chResult = [] ∧ s.collected.length = l.length ∧
+      s.apps.length = l.length := by
+  have h := C16_invariant l f w cap s hr
+  have ht := terminal_of_done h hw hd
+  exact ⟨ht.allDone, ht.jobsEmpty, ht.resEmpty, ht.colLen, by rw [(apps_perm ht).length_eq]; simp⟩
+
+/-! ### Termination, for every schedule -/
+
+/-- every atomic step of every goroutine strictly decreases the measure … -/
+theorem C16_measure_decreases (l : List α) (f : α → β) (cap : Nat) (s s' : St α β) (hs : Step l f cap s s') :
+    measure l.length s' < measure l.length s :=
+  measure_step hs
+
+/-- … so every run, whatever the scheduler does, has at most `measure init` steps: -/
+theorem C16_run_bounded (l : List α) (f : α → β) (w cap k : Nat) (s : St α β) (hr : Run l f cap k (init w) s) :
+    k ≤ measure l.length (init w : St α β) := by
+  have := run_bound hr; omega
+
+/-- no deadlock: while PMap has not returned, some goroutine can move — for every worker count (0 included), every
+    capacity of the result channel (0 included), the empty list included … -/
+theorem C16_no_deadlock (l : List α) (f : α → β) (w cap : Nat) (s : St α β) (hr : Reach l f cap (init w) s)
+    (hd : s.collectorDone = false) : ∃ s', Step l f cap s s' :=
+  progress (C16_invariant l f w cap s hr) hd
+
+/-- … hence from every reachable state PMap can still return (and, by the two theorems above, every maximal run is
+    finite and ends in a state where it has returned). -/
+theorem C16_terminates (l : List α) (f : α → β) (w cap : Nat) (s : St α β) (hr : Reach l f cap (init w) s) :
+    ∃ t, Reach l f cap s t ∧ t.collectorDone = true :=
+  can_finish _ s (Nat.le_refl _) (C16_invariant l f w cap s hr)
+
+/-! ### The concrete `PMap` call: worker count and capacity as the code computes them -/
+
+/-- `PMap(f, option, list...)` in ordered mode, any schedule: returns `Map(f, list)`; at most `min(FixedPool, n)` (or `n`)
+    applications in progress at any time; a returning run exists from every reachable state. -/
+theorem C16_pmap_ordered (l : List α) (f : α → β) (pool : Option Int) (zero : β) (s : St α β)
+    (hr : Reach l f (workerCount pool l.length / 3) (init (workerCount pool l.length)) s) :
+    (s.collectorDone = true → orderedResult zero l.length s.collected = l.map f) ∧
+    s.workers.countP WS.isComputing ≤ specWorkers pool l.length ∧
+    (∃ t, Reach l f (workerCount pool l.length / 3) s t ∧ t.collectorDone = true) := by
+  have hw : l ≠ [] → 0 < workerCount pool l.length := fun hl =>
+    (C16_workers_bounds pool l.length).2 (List.length_pos_iff.mpr hl)
+  refine ⟨fun hd => C16_result_ordered l f _ _ hw zero s hr hd, ?_, C16_terminates l f _ _ s hr⟩
+  rw [← C16_workers]; exact C16_conc l f _ _ s hr
+
+/-- the same for `PMapOption{RandomOrder: true}`: a permutation of `Map(f, list)` -/
+theorem C16_pmap_random (l : List α) (f : α → β) (pool : Option Int) (zero : β) (s : St α β)
+    (hr : Reach l f (workerCount pool l.length / 3) (init (workerCount pool l.length)) s) :
+    (s.collectorDone = true → noOrderResult zero l.length s.collected = some (s.collected.map (·.2)) ∧
+        (s.collected.map (·.2)).Perm (l.map f)) ∧
+    s.workers.countP WS.isComputing ≤ specWorkers pool l.length ∧
+    (∃ t, Reach l f (workerCount pool l.length / 3) s t ∧ t.collectorDone = true) := by
+  have hw : l ≠ [] → 0 < workerCount pool l.length := fun hl =>
+    (C16_workers_bounds pool l.length).2 (List.length_pos_iff.mpr hl)
+  refine ⟨fun hd => C16_result_random l f _ _ hw zero s hr hd, ?_, C16_terminates l f _ _ s hr⟩
+  rw [← C16_workers]; exact C16_conc l f _ _ s hr
+
+/-- non-vacuity: for every list, function and pool size a returning run exists from the initial state (so the
+    hypotheses `Reach … s` and `s.collectorDone = true` above are satisfiable in every configuration) -/
+example (l : List α) (f : α → β) (pool : Option Int) :
+    ∃ t, Reach l f (workerCount pool l.length / 3) (init (workerCount pool l.length)) t ∧ t.collectorDone = true :=
+  C16_terminates l f _ _ _ (.refl _)
+
+/-- a concrete non-trivial reachable state: two elements, one worker, capacity 0, the first job being computed -/
+example : Reach [10, 20] (· + 1) 0 (init 1)
+    ({ fed := 1, jobsClosed := false, chJobs := [], workers := [.computing 0 10], chResult := [], resultClosed := false,
+       collected := [], collectorDone := false, panicked := false, apps := [] } : St Nat Nat) :=
+  .step (.step (.refl _) (.feed _ 10 rfl rfl (by decide))) (.take _ [] [] 0 10 [] rfl rfl)
+
+/-! ### The driver's observable -/
+
+/-- what the driver prints (`expectedObs`) is the canonical form of `Map(f, list)` and the worker count of the code's
+    rule, which is the statement's bound; the two sides of the correspondence oracle agree on the unchanged rule -/
+theorem C16_expected_obs (c : Case) :
+    expectedObs c = obsLine c (inputList c) (if c.hold then toString (specWorkers c.pool c.n) else "ok") := by
+  unfold expectedObs; rw [C16_workers]
+
+/-- The list the driver prints is what EVERY terminal state of the goroutine system yields, for every case line (int
+    elements; the string cases use the same numbers with a fixed-width rendering): in ordered mode the assembled output
+    itself, in RandomOrder mode its sorted form — and sorted forms coincide exactly for permutations
+    (`mergeSort_eq_of_perm`), so comparing sorted outputs decides "is a permutation of Map(f, list)". -/
+theorem C16_driver_observable (c : Case) (s : St Nat Nat)
+    (hr : Reach (inputList c) fInt (workerCount c.pool c.n / 3) (init (workerCount c.pool c.n)) s)
+    (hd : s.collectorDone = true) :
+    (if c.random then (s.collected.map (·.2)).mergeSort leNat else orderedResult 0 c.n s.collected)
+      = (canon c (inputList c)).map fInt := by
+  have hlen : (inputList c).length = c.n := by simp [inputList]
+  have hw : inputList c ≠ [] → 0 < workerCount c.pool c.n := fun hl =>
+    (C16_workers_bounds c.pool c.n).2 (by rw [← hlen]; exact List.length_pos_iff.mpr hl)
+  unfold canon
+  cases hrand : c.random with
+  | false =>
+    simp only [Bool.false_eq_true, if_false]
+    rw [← hlen]; exact C16_result_ordered _ _ _ _ hw 0 s hr hd
+  | true =>
+    simp only [if_true]
+    have hp := (C16_result_random _ _ _ _ hw 0 s hr hd).2
+    rw [mergeSort_eq_of_perm hp, mergeSort_map_mono fInt (by intro a b h; unfold fInt; omega)]
+
+/-! ### Tie to the source: protocol skeletons regenerated from fp.go on every run -/
+
+def expectedSkeletons : List (String × String) := [
+  ("PMap", "if[]{return} if[]{if[]{call(pMapNoOrder) return}} call(pMapPreserveOrder) return"),
+  ("pMapPreserveOrder", "go{range[]{send(chJobs)} call(close)} for[]{call(Add) go{defer{call(Done)} rangech(chJobs){range[]{callfn(f) send(chResult)}}}} go{call(Wait) call(close)} rangech(chResult){range[]{setidx(newListMap)}} for[]{setidx(newList)} return"),
+  ("pMapNoOrder", "go{range[]{send(chJobs)} call(close)} for[]{call(Add) go{defer{call(Done)} rangech(chJobs){callfn(f) send(chResult)}}} go{call(Wait) call(close)} rangech(chResult){setidx(newList)} return")]
+
+/-- fp.go still has the protocol shape of the transition system: feeder goroutine = sends then close; per worker
+    `wg.Add` BEFORE `go`, deferred `wg.Done`, loop over chJobs with one call of `f` and one send on chResult per job;
+    closer goroutine = `wg.Wait` then close; the caller drains chResult (by index into the map, then the indexed
+    assembly loop — ordered; by arrival — unordered); `PMap` dispatches on the option. -/
+theorem C16_skeleton : expectedSkeletons.all (fun e => Gen.skeletonOf e.1 == some e.2) = true := by
+  decide +kernel
+
+end FpgoVerif.C16
